@@ -318,8 +318,8 @@ def proc_stage(res, rng, vh, scen, size=2, maxnow=5, maxev=3, nmodel=120, nfree=
     every trace is validated by TraceProc (each row exactly once, in an epoch-aligned interval containing its arrival)."""
     mc = mc or dict(size=size, maxnow=maxnow + 3, maxev=maxev + 1)
     for keep in ["next"]:
-        cfg = ("SPECIFICATION Spec\nCONSTANTS Size = %d MaxNow = %d MaxEv = %d Emit = FALSE KeepFrom = \"%s\"\n"
-               "INVARIANTS NoLoss ExactlyOnce NoRepeat OnGrid SlotBehind\nVIEW View\nCHECK_DEADLOCK FALSE\n" % (mc["size"], mc["maxnow"], mc["maxev"], keep))
+        cfg = ("SPECIFICATION Spec\nCONSTANTS Size = %d MaxNow = %d MaxEv = %d Emit = FALSE KeepFrom = \"%s\" MaxManual = 0 TickGuard = TRUE\n"
+               "INVARIANTS NoLoss ExactlyOnce NoRepeat OnGrid SlotBehind ExcusedOnlyManual\nVIEW View\nCHECK_DEADLOCK FALSE\n" % (mc["size"], mc["maxnow"], mc["maxev"], keep))
         r = vlib.tlc(SPEC, "ProcTumbling", cfg, workers=8, timeout=900)
         res.add_model("ProcTumbling", r, dict(mc, kind="proctumbling"))
         if not r["ok"]:
@@ -327,7 +327,18 @@ def proc_stage(res, rng, vh, scen, size=2, maxnow=5, maxev=3, nmodel=120, nfree=
                 res.notes.append("MODEL-COUNTEREXAMPLE proctumbling: invariant %s fails in the model; decided by the replay" % r["violated"])
             else:
                 raise vlib.Inconclusive("TLC failed on ProcTumbling:\n" + r.get("error", r["out"][-2000:]))
-    cfg = ("SPECIFICATION Spec\nCONSTANTS Size = %d MaxNow = %d MaxEv = %d Emit = TRUE KeepFrom = \"next\"\nINVARIANTS EmitScenario\nCHECK_DEADLOCK FALSE\n"
+    # TriggerWindow() by the application (one call anywhere): the interval it ends early is reported once, rows are behind the cursor only
+    # in the rest of THAT interval, every later interval stays complete and on the grid (TickGuard = the code since repair bfbef07)
+    cfg = ("SPECIFICATION Spec\nCONSTANTS Size = %d MaxNow = %d MaxEv = %d Emit = FALSE KeepFrom = \"next\" MaxManual = 1 TickGuard = TRUE\n"
+           "INVARIANTS NoLoss ExactlyOnce NoRepeat OnGrid ExcusedOnlyManual\nVIEW View\nCHECK_DEADLOCK FALSE\n" % (mc["size"], mc["maxnow"], mc["maxev"]))
+    r = vlib.tlc(SPEC, "ProcTumbling", cfg, workers=8, timeout=900)
+    res.add_model("ProcTumbling", r, dict(mc, kind="proctumbling", manual=1))
+    if not r["ok"]:
+        if r["violated"]:
+            res.notes.append("MODEL-COUNTEREXAMPLE proctumbling (manual trigger): invariant %s fails in the model; decided by the replay" % r["violated"])
+        else:
+            raise vlib.Inconclusive("TLC failed on ProcTumbling (manual trigger):\n" + r.get("error", r["out"][-2000:]))
+    cfg = ("SPECIFICATION Spec\nCONSTANTS Size = %d MaxNow = %d MaxEv = %d Emit = TRUE KeepFrom = \"next\" MaxManual = 0 TickGuard = TRUE\nINVARIANTS EmitScenario\nCHECK_DEADLOCK FALSE\n"
            % (size, maxnow, maxev))
     r = vlib.tlc(SPEC, "ProcTumbling", cfg, workers=1, timeout=900)
     if not r["ok"]:
